@@ -1102,6 +1102,10 @@ val tf_get : threefold -> board -> n
 
 val sat8 : n -> n
 
+val tf_bump : threefold -> board -> threefold * n
+
+val tf_add : threefold -> board -> threefold * bool
+
 type blist = (board * n) list
 
 val bl_count : blist -> threefold -> board -> n
@@ -1178,6 +1182,16 @@ val deepen :
 
 val search :
   n -> threefold -> nat -> nat -> board -> ((move option * score) * n) * bool
+
+type bot = { bt_board : board; bt_tf : threefold }
+
+val bot_init : bot
+
+val bot_set_board : board -> bot
+
+val bot_make_move : bot -> move -> bot * (bool * bool)
+
+val bot_evaluate : n -> nat -> nat -> bot -> move option * score
 
 val api_score_cmp : score -> score -> comparison
 
@@ -1431,3 +1445,13 @@ val api_search :
 val api_nat_of_N : n -> nat
 
 val api_score_neg2 : score -> score
+
+val api_bot_init : bot
+
+val api_bot_set_board : board -> bot
+
+val api_bot_make_move : bot -> move -> bot * (bool * bool)
+
+val api_bot_evaluate : n -> nat -> nat -> bot -> move option * score
+
+val api_bot_board : bot -> board
